@@ -10,6 +10,8 @@ import nucs.solvers.consistency_algorithms as ca
 from nucs.problems.problem import Problem
 from nucs.solvers.backtrack_solver import BacktrackSolver
 
+import problems
+
 
 def _var_heuristic_factory(from_the_end):
     """Two heuristics from ONE factory (same module, same qualified name, different behaviour)."""
@@ -123,11 +125,11 @@ def execute(ops):
                     o["sols"] = [[int(v) for v in next(gens[a - 1])]]
                 except StopIteration:
                     o["ended"] = True
-                    o["stats"] = [int(v) for v in solvers[a - 1].statistics]
+                    o["stats"] = problems.user_stats(solvers[a - 1])
             elif op == "drain":
                 o["sols"] = [[int(v) for v in x] for x in gens[a - 1]]
                 o["ended"] = True
-                o["stats"] = [int(v) for v in solvers[a - 1].statistics]
+                o["stats"] = problems.user_stats(solvers[a - 1])
             elif op == "abandon":
                 gens[a - 1].close()
             elif op == "register":
